@@ -26,8 +26,12 @@ RULE = ("texts: (a) every ordered pair of textual binary operators of the engine
         "<= 3 binary operators x every placement of <= 1 prefix operator (exhaustive), every pair x every placement "
         "of <= 2 prefix operators (exhaustive), 60000 sampled triples with <= 2 prefix operators per engine, and 200 "
         "random tables x 2000 texts. "
-        "Engines: default, legacy, random insert_operator sequences (1-6 calls; new symbols from a pool of "
-        "punctuation and words; prefix/suffix/left/right; with and without create_group; aliases). "
+        "Engines: default, legacy, fixed and random insert_operator sequences (1-6 calls; new symbols from a pool of "
+        "punctuation and words or an EXISTING symbol in its other role - binary symbol as new prefix operator, prefix "
+        "symbol as new binary one; anchors on either role of two-role symbols and on arities the symbol lacks; "
+        "prefix/suffix/left/right; with and without create_group; aliases); every call is compared with the "
+        "insert_operator model and the contract on groups, and the engine's trees with the table the CALL SEQUENCE "
+        "describes (not factory.operators read back). "
         "non-trivial = the text holds >= 2 operator tokens (binary/prefix/suffix/index) outside brackets of each "
         "other, i.e. precedence or associativity decides something; distinct = distinct (operator list, token list)")
 TRUSTED = ["Model/Pratt.v (precedence climbing with the yacc rank rule) stands in for ply's LALR(1) tables with "
@@ -275,7 +279,11 @@ class Eng:
             except Exception as e:      # ply refuses the grammar / precedence list
                 self.create_error = "%s: %s" % (type(e).__name__, e)
             self.name2sym = {v[2]: k for k, v in self.built.operators.items()}
-        self.spec_ops = {"default": SPEC_DEFAULT, "legacy": SPEC_LEGACY}.get(kind) if not calls else None
+        # the table the engine must follow: the pinned base table with the call sequence applied by the
+        # CONTRACT of insert_operator (spec_insert), not factory.operators read back
+        self.spec_ops = {"default": SPEC_DEFAULT, "legacy": SPEC_LEGACY}[kind]
+        for c in self.calls:
+            self.spec_ops = spec_insert(self.spec_ops, c)
 
     def spec(self):
         return {"kind": self.kind, "calls": self.calls}
@@ -627,7 +635,10 @@ POOL_WORD = ["xor", "div", "is", "then", "implies", "nand", "isa", "u_op"]
 
 def gen_calls(rng, base_ops, ncalls, mixed):
     """a random sequence of insert_operator calls; unless `mixed`, each keeps every group homogeneous:
-    binary operators of one associativity with optional prefix operators, or suffix operators only"""
+    binary operators of one associativity with optional prefix operators, or suffix operators only.
+    New operators often REUSE an existing symbol in its other role (a binary symbol as a new prefix
+    operator, a prefix symbol as a new binary one), later calls anchor on either role of such symbols,
+    and some calls name an arity the anchor symbol does not have (must raise ValueError)."""
     ops = [t for t in base_ops]
     calls = []
     for _ in range(ncalls):
@@ -639,21 +650,38 @@ def gen_calls(rng, base_ops, ncalls, mixed):
             elif t[1] != NV:
                 groups.setdefault(g, []).append(t)
         anchors = [(t[0], t[1] in (L, R)) for t in ops if len(t) >= 2 and t[1] != NV]
+        dual = [(s_, b) for s_ in T.bin if s_ in T.pre or s_ in T.suf for b in (True, False)]
         for _try in range(50):
             create = rng.random() < 0.5
-            kind = rng.choice([P, S, L, L, R, R])
-            anchor = None if rng.random() < 0.07 else rng.choice(anchors)
+            kind = rng.choice([P, P, S, L, L, R, R])
+            r = rng.random()
+            if r < 0.07:
+                anchor = None
+            elif r < 0.45 and dual:
+                anchor = rng.choice(dual)
+            else:
+                anchor = rng.choice(anchors)
+            if anchor is not None and rng.random() < 0.08:
+                anchor = (anchor[0], not anchor[1])            # possibly an arity the symbol does not have
             used_un = set(T.pre) | set(T.suf)
             used_bin = set(T.bin)
-            pool = POOL_PUNCT + POOL_WORD + (list(T.pre) + list(T.bin) if rng.random() < 0.15 else [])
-            sym = rng.choice(pool)
+            other = []
+            if kind == P:
+                other = [s_ for s_ in T.bin if s_ not in used_un and s_ not in ("[]", "{}")]
+            elif kind in (L, R):
+                other = [s_ for s_ in T.pre if s_ not in used_bin]
+            if other and rng.random() < 0.4:
+                sym = rng.choice(other)
+            else:
+                sym = rng.choice(POOL_PUNCT + POOL_WORD + (list(T.pre) + list(T.bin) if rng.random() < 0.1 else []))
             if sym in ("[]", "{}"):
                 continue
             dup = (kind in (P, S) and sym in used_un) or (kind in (L, R) and sym in used_bin)
             clash = (kind == S and sym in used_bin) or (kind in (L, R) and sym in T.suf)
             if clash or (dup and rng.random() < 0.97):
                 continue
-            if not create and not mixed:
+            exists = anchor is None or spec_groups(ops, (anchor[0], anchor[1], sym, kind, create, None)) is not None
+            if exists and not create and not mixed:
                 # the group the new operator would join
                 if anchor is None:
                     grp = groups.get(1, [])
@@ -670,23 +698,11 @@ def gen_calls(rng, base_ops, ncalls, mixed):
             alias = rng.choice([None, None, None, "al_" + str(len(calls))])
             c = (anchor[0] if anchor else None, anchor[1] if anchor else False, sym, kind, create, alias)
             calls.append(c)
-            # replay on a scratch factory list through the REAL method to keep `ops` in step
-            ops = _apply_call(ops, c)
+            ops = spec_insert(ops, c)       # the list the sequence describes (independent of the implementation)
             break
     if rng.random() < 0.05:
         calls.append((rng.choice(["nosuch", "+", "not"]), rng.random() < 0.5, "@@", L, rng.random() < 0.5, None))
     return calls
-
-
-def _apply_call(ops, c):
-    import yaql
-    f = yaql.YaqlFactory()
-    f.operators = [t for t in ops]
-    try:
-        f.insert_operator(*c)
-    except ValueError:
-        return ops
-    return canon_ops(f.operators)
 
 
 # --------------------------------------------------------------------------------------------
@@ -739,7 +755,7 @@ def oracle_one(eng, text, toks, obs):
     """None if fine, else (what, data)"""
     ops = eng.spec_ops if eng.spec_ops is not None else eng.ops
     want = wf_trees(toks, ops)
-    label = "the pinned %s table" % eng.kind if eng.spec_ops is not None else "factory.operators"
+    label = ("the pinned %s table" % eng.kind) + (" with the insert_operator calls applied as documented" if eng.calls else "")
     base = {"engine": eng.spec(), "text": text, "tokens": [repr(t) for t in toks],
             "observed": obs[1] if obs[0] == "ok" else "YaqlGrammarException", "table": label}
     if len(want) > 1:
@@ -831,30 +847,49 @@ def split_groups(ops):
     return gs
 
 
+def spec_groups(before, c):
+    """the contract of insert_operator on the groups of the list: the anchor is the first row with the given
+    symbol AND arity; returns the groups afterwards, or None when the call must raise ValueError"""
+    new = (c[2], c[3], c[5] if len(c) > 5 else None)
+    gb = split_groups(before)
+    if c[0] is None:
+        return ([[new]] + gb) if c[4] else ([[new] + gb[0]] + gb[1:])
+    ks = [i for i, g in enumerate(gb)
+          if any(t[0] == c[0] and t[1] != NV and (t[1] in (L, R)) == bool(c[1]) for t in g)]
+    if not ks:
+        return None
+    k = ks[0]
+    if not c[4]:
+        return gb[:k] + [gb[k] + [new]] + gb[k + 1:]
+    j = k + 1
+    while j < len(gb) and not gb[j]:
+        j += 1
+    return gb[:j] + [[new]] + gb[j:]
+
+
+def join_groups(gs):
+    ops = []
+    for i, g in enumerate(gs):
+        if i:
+            ops.append(())
+        ops += g
+    return ops
+
+
+def spec_insert(ops, c):
+    """operator list the call sequence describes (unchanged when the call must raise)"""
+    want = spec_groups(ops, c)
+    return ops if want is None else join_groups(want)
+
+
 def insert_violation(before, c, after):
     """the property's own predicate for one insert_operator call (what C02_insert_operator states)"""
+    want = spec_groups(before, c)
     if after is None:
-        found = any(len(t) >= 2 and t[0] == c[0] and (t[1] in (L, R)) == bool(c[1]) and t[1] != NV for t in before)
-        return "insert_operator raised although the anchor exists" if (c[0] is None or found) else None
-    new = (c[2], c[3], c[5] if len(c) > 5 else None)
-    gb, ga = split_groups(before), split_groups(after)
-    if c[0] is None:
-        k = 0
-    else:
-        ks = [i for i, g in enumerate(gb) if any(t[0] == c[0] and (t[1] in (L, R)) == bool(c[1]) and t[1] != NV for t in g)]
-        if not ks:
-            return "insert_operator returned although the anchor does not exist"
-        k = ks[0]
-    if not c[4]:
-        want = gb[:k] + [([new] + gb[k]) if c[0] is None else (gb[k] + [new])] + gb[k + 1:]
-    elif c[0] is None:
-        want = [[new]] + gb
-    else:
-        j = k + 1
-        while j < len(gb) and not gb[j]:
-            j += 1
-        want = gb[:j] + [[new]] + gb[j:]
-    if ga != want:
+        return None if want is None else "insert_operator raised although the anchor (symbol and arity) exists"
+    if want is None:
+        return "insert_operator returned although no row has the anchor's symbol and arity"
+    if split_groups(after) != want:
         return ("insert_operator: groups after the call are not the old groups with the new operator %s"
                 % ("in a new group right after the anchor's" if c[4] else "added to the anchor's group"))
     return None
@@ -872,6 +907,14 @@ FIXED = [
     ("default", [(None, False, "@", L, True, None), ("*", True, "!", L, False, None), ("not", False, "!", P, True, None)]),
     # a call that must raise ValueError (no binary `not`, no operator `nosuch`), then a valid one
     ("default", [("not", True, "@", L, False, None), ("nosuch", False, "@", L, True, None), ("and", True, "&", L, False, "amp")]),
+    # a symbol whose binary row lies ABOVE its unary row, then anchors on each of its roles
+    ("default", [("not", False, "*", P, False, None), ("*", False, "@", L, True, None), ("*", True, "%", L, False, None)]),
+    ("default", [("and", True, "%", L, False, None), ("or", True, "%", P, False, None), ("%", False, "@", R, True, None),
+                 ("%", True, "#", L, False, None)]),
+    # a prefix symbol reused as a binary operator further down; anchors on both roles
+    ("legacy", [("or", True, "not", L, False, "bin_not"), ("not", True, "@", L, True, None), ("not", False, "!", P, False, None)]),
+    # arities the anchor symbol does not have: both calls must raise ValueError
+    ("default", [("and", False, "@", L, True, None), ("not", True, "@", L, False, None), ("or", True, "@", L, True, None)]),
     # a table _build_operator_table must reject: second binary role for `+`
     ("default", [("or", True, "+", R, False, None)]),
 ]
